@@ -95,3 +95,12 @@ Proof.
   { intros x. apply Qle_bool_iff. setoid_replace (x - x) with 0 by ring. exact H. }
   rewrite !E. reflexivity.
 Qed.
+
+(* a rectangular shade turns with the building, corner by corner *)
+Theorem rect_shade_turns dev e az tilt origin w h :
+  Forall2 veq (rect_shade_corners (compose dev e) az tilt origin w h)
+              (map (rotz (cw e)) (rect_shade_corners dev az tilt origin w h)).
+Proof.
+  unfold rect_shade_corners. cbn [map].
+  repeat constructor; unfold veq, vadd, rotz, south_ccw, compose, cw; cbn; repeat split; ring.
+Qed.
